@@ -120,8 +120,10 @@ RULE = ("Real kvarn::handle_connection on loopback TCP pairs, TLS by a rustls Se
         "(future / past / garbage; cold and warm cache) x Origin x query strings x REQUEST BODIES of 1 B - 150 kB (around the limits of "
         "the partial readers and around the HTTP/2 initial flow-control window 65535, so that WINDOW_UPDATEs are needed) sent to "
         "whatever answers: a handler that reads all, part or nothing of it, files (405), missing paths, cache hits, refused Ranges "
-        "(416) and unsafe paths (400), a body that looks like a request - each followed by the rest of the history on the SAME "
-        "connection and a sentinel request that checks the framing. proto.answered: histories made of such requests; the "
+        "(416) and unsafe paths (400), a body that looks like a request - written with the head, some ms later, or (unread ones) only "
+        "after the answer has been read, so that the server must take it from the connection - each followed by the rest of the "
+        "history on the SAME connection and a sentinel request that checks the framing; the h2 client keeps the default 65535-byte "
+        "windows, so echoed 70 kB / 150 kB answers need its WINDOW_UPDATEs. proto.answered: histories made of such requests; the "
         "implementation's (every request answered on HTTP/1.1?, on HTTP/2?) against the model's connection loop and the "
         "specification (yes, yes). Oracles: (a) parity itself, independent of "
         "the model: status, all headers except {connection, keep-alive, proxy-connection, transfer-encoding, upgrade, te, "
@@ -160,12 +162,16 @@ ASSUMPTIONS = [
     "request bodies only with methods whose content-length kvarn's HTTP/1 reader honours (utils::get_body_length_request returns 0 "
     "for GET/HEAD/OPTIONS/CONNECT/TRACE whatever content-length says - as in C08, a GET that carries a body is outside: the "
     "hypothesis body_declared of history_parity / pair_history_answered; undeclared_request_body_refuted shows in the model that "
-    "such a GET's late body bytes would be read as the next request line on HTTP/1.1 and not on HTTP/2; not replayed on the real "
-    "code, the generators never send it); history_parity additionally assumes that no answer makes a task panic, which "
-    "send_never_panics proves for every sanitize_data that sanitize_request can produce and bodies below 2^64 bytes",
-    "the HTTP/1 client sends the whole declared body before it reads the answer (bodies <= 150 kB, answers to them < 1 kB or echoed "
-    "after the body was read: no write-write deadlock); how much of a body arrives in the same read as the head is not controlled "
-    "and - in the repaired code - decides nothing (history_parity quantifies over it)",
+    "such a GET's late body bytes are read as the next request line on HTTP/1.1 and not on HTTP/2, and the witness - GET /p with "
+    "content-length: 5 and 'hello' written after the answer, then GET /p - is replayed on the real code on every run: known class "
+    "h1-undeclared-request-body, the only input of that kind the generators send); history_parity additionally assumes that no "
+    "answer makes a task panic, which send_never_panics proves for every sanitize_data that sanitize_request can produce and "
+    "bodies below 2^64 bytes",
+    "the HTTP/1 client writes the declared body with the head, a few ms after it, or - for targets whose handlers never read a "
+    "body - only after it has read the answer (then Http1Body::drain has to take all of it from the connection; this is the only "
+    "segmentation that decides a verdict, and it does not depend on timing); bodies <= 150 kB, answers to unread ones < 1 kB: no "
+    "write-write deadlock. In the repaired code the segmentation decides nothing for declared bodies (history_parity quantifies "
+    "over it)",
 ]
 TRUSTED = [
     "modelled (Model/Protocols.v): src/lib.rs handle_connection (alt-svc append, per-request task for HTTP/2, the HTTP/1 request loop "
@@ -212,8 +218,11 @@ LEVEL_TEXT = ("partial. Machine-checked Coq theorems over an executable model of
               "control (window updates for large request bodies, the reset after an unread one), stream scheduling and state machine, "
               "TLS and ALPN - and the tokio scheduler; the concurrency theorem is about "
               "sequentially consistent interleavings of two atomic blocks per task; which bytes a partial read returns is observed, "
-              "the model only has how many are taken. No known finding is open: the former class h1-unread-request-body was repaired "
-              "by kvarn commit dfe4d54 and is now part of the claim.")
+              "the model only has how many are taken. The former known class h1-unread-request-body was repaired by kvarn commit "
+              "dfe4d54 and is now part of the claim. One known class, outside the property's quantifier (the C08 generator sends no "
+              "such request): h1-undeclared-request-body - kvarn's HTTP/1 reader ignores the content-length of GET / HEAD / OPTIONS "
+              "(by design: its unit test expects it), so body bytes of a GET that arrive after its head break the HTTP/1.1 "
+              "connection and not the HTTP/2 one; the theorems carry the hypothesis, the witness is replayed on every run.")
 LEVEL_NOTE = ("Trusted: Coq kernel; extraction (sample re-checked in-kernel); the hand transcription of SendKind::send / ResponsePipe / "
               "handle_connection's request loop into Model/Protocols.v as validated by the differential run; h2 and rustls as black "
               "boxes; layer 4 observed on a twin host; request bodies only where kvarn's HTTP/1 reader honours content-length "
@@ -363,6 +372,20 @@ BODY_METHODS = (b"POST", b"PUT", b"DELETE", b"PATCH")
 BODY_SIZES = [1, 2, 5, 64, 99, 100, 101, 700, 5000, 5000, 20000, 65535, 65536, 70000, 150000]
 
 
+LATE = b"x-c20-late-body"     # pseudo header for the harness's HTTP/1.1 client, never sent (see harness/src/c20.rs)
+
+
+def late(rng, target, p_after=0.5, p_ms=0.25):
+    """how the HTTP/1.1 client writes the request body: with the head (nothing), some ms after the head, or - only for targets
+    whose handlers never read a body - after the response has been read (the server has then certainly seen the head alone:
+    Http1Body::drain has to take the whole body from the connection)"""
+    if target.split(b"?")[0] not in READS and rng.random() < p_after:
+        return [(LATE, b"after")]
+    if rng.random() < p_ms:
+        return [(LATE, b"%d" % rng.choice([1, 5, 20]))]
+    return []
+
+
 def rand_body(rng, n):
     if n > 2000:
         seed = bytes(rng.randrange(32, 127) for _ in range(97))
@@ -395,6 +418,7 @@ def rand_request(rng, focus=None):
             t = rng.choice([b"/echo", b"/echo", b"/echo3", b"/echo100"])
         body = rand_body(rng, rng.choice(BODY_SIZES))
         hs.append((b"content-length", b"%d" % len(body)))
+        hs += late(rng, t)
     return R(m, t, hs, body)
 
 
@@ -445,6 +469,12 @@ DIRECTED_HISTORIES = [
      R(b"GET", b"/p"), R(b"POST", b"/p", [(b"content-length", b"%d" % len(SMUGGLE))], SMUGGLE),
      R(b"DELETE", b"/./x", [(b"content-length", b"9")], b"traversal"), R(b"PATCH", b"/n", [(b"range", b"bytes=900-"), (b"content-length", b"3")], b"abc"),
      R(b"POST", b"/echo", [(b"content-length", b"6")], b"read-6"), R(b"GET", b"/missing")],
+    # the same kinds, the body written only after the answer has been read / some ms after the head
+    [R(b"POST", b"/f.txt", [(b"content-length", b"10"), (LATE, b"after")], b"0123456789"), R(b"GET", b"/f.txt"),
+     R(b"PUT", b"/p", [(b"content-length", b"70000"), (LATE, b"after")], b"q" * 70000), R(b"GET", b"/p"),
+     R(b"POST", b"/missing", [(b"content-length", b"%d" % len(SMUGGLE)), (LATE, b"after")], SMUGGLE), R(b"HEAD", b"/p"),
+     R(b"POST", b"/echo", [(b"content-length", b"6"), (LATE, b"20")], b"late-6"), R(b"PUT", b"/echo3", [(b"content-length", b"700"), (LATE, b"20")], b"e" * 700),
+     R(b"DELETE", b"/n", [(b"range", b"bytes=10-4"), (b"content-length", b"700"), (LATE, b"after")], b"u" * 700), R(b"GET", b"/n")],
     # partly read bodies (read_to_bytes(3) / (100)), lengths around the limit
     [R(b"POST", b"/echo3", [(b"content-length", b"2")], b"ab"), R(b"POST", b"/echo3", [(b"content-length", b"3")], b"abc"),
      R(b"POST", b"/echo3", [(b"content-length", b"4")], b"abcd"), R(b"GET", b"/q?after=partial"),
@@ -484,13 +514,19 @@ UNREAD_HISTORIES = [
     [R(b"POST", b"/echo3", [(b"content-length", b"12")], b"GET / HTTP/1"), R(b"GET", b"/p"), R(b"POST", b"/missing", [(b"content-length", b"3000")], b"x" * 3000),
      R(b"HEAD", b"/p")],
     [R(b"POST", b"/p", [(b"content-length", b"70000")], b"L" * 70000), R(b"POST", b"/echo", [(b"content-length", b"2")], b"ok")],
+    [R(b"PUT", b"/f.txt", [(b"range", b"bytes=10-4"), (b"content-length", b"700"), (LATE, b"after")], b"u" * 700), R(b"GET", b"/p"),
+     R(b"POST", b"/p", [(b"content-length", b"5"), (LATE, b"after")], b"hello"), R(b"GET", b"/p")],
+]
+# the known class h1-undeclared-request-body: the content-length of a GET is not looked at on HTTP/1.1
+KNOWN_HISTORIES = [
+    [R(b"GET", b"/p", [(b"content-length", b"5"), (LATE, b"after")], b"hello"), R(b"GET", b"/p")],
 ]
 
 
 def gen_answered(rng, n_random):
     """proto.answered: is EVERY request of a history answered, on the HTTP/1.1 and on the HTTP/2 connection (and the framing
     intact afterwards: sentinel)?  Histories made of requests whose body is not read, or only in part"""
-    plans = [(h, "answered-directed") for h in UNREAD_HISTORIES]
+    plans = [(h, "answered-directed") for h in UNREAD_HISTORIES] + [(h, "known-undeclared-body") for h in KNOWN_HISTORIES]
     for _ in range(n_random):
         h = []
         for _ in range(rng.randrange(2, 6)):
@@ -498,7 +534,7 @@ def gen_answered(rng, n_random):
             t = rng.choice([b"/p", b"/f.txt", b"/missing", b"/echo3", b"/echo100", b"/n", b"/./x", b"/echo", b"/q?a=1", b"/nf"])
             hs = [(b"range", rng.choice([b"bytes=10-4", b"bytes=0-1", b"bytes=99999-"]))] if rng.random() < 0.3 else []
             body = rand_body(rng, rng.choice(BODY_SIZES))
-            h.append(R(m, t, hs + [(b"content-length", b"%d" % len(body))], body))
+            h.append(R(m, t, hs + [(b"content-length", b"%d" % len(body))] + late(rng, t, 0.6, 0.3), body))
             if rng.random() < 0.5:
                 h.append(R(rng.choice([b"GET", b"HEAD"]), rng.choice([b"/p", b"/f.txt", b"/missing"])))
         plans.append((h, "answered"))
@@ -579,6 +615,7 @@ def burst_plan(rng, n):
             m = rng.choice(BODY_METHODS)
             body = b"unread-%d-" % s + rand_body(rng, rng.choice([1, 90, 5000, 70000]))
             hs.append((b"content-length", b"%d" % len(body)))
+            hs += late(rng, t)
             if t.startswith(b"/slow"):
                 hs.append((b"x-delay", b"%d" % rng.choice([0, 40, 120, 200])))
         reqs.append(R(m, t, hs, body))
@@ -762,8 +799,15 @@ def extra_oracle(c, i):
     return None
 
 
+def undeclared_body(c):
+    """some request of the history carries body bytes with a method whose content-length kvarn's HTTP/1 reader ignores"""
+    return any(r[1][3][1] and r[1][0][1] not in BODY_METHODS for r in c.x[1][1][1][1][1])
+
+
 def classify(c, i):
-    # no known class: h1-unread-request-body was repaired by dfe4d54 (fixed: line in known-findings.txt)
+    # (the class h1-unread-request-body was repaired by dfe4d54: fixed: line in known-findings.txt)
+    if c.comp == "proto.answered" and i == "(L (N 0) (N 1))" and undeclared_body(c):
+        return "h1-undeclared-request-body"
     return None
 
 
